@@ -319,7 +319,10 @@ class MinimizerIMinuit(MinimizerBase):
             raise RuntimeError("Need to perform a fit before calling profile()!")
         _bound_low, _bound_high, _arrow_specs = self._get_profile_bound(parameter_name, low, high, sigma, cl, subtract_min, arrows)
         self.minimize()  # return to minimum
-        _kwargs = dict(bound=(_bound_low, _bound_high), subtract_min=subtract_min)
+        # subtract the cost at the minimum (like the arrow specs and the other backends do),
+        # not the smallest value that happens to be among the scanned points:
+        _y_offset = self.function_value if subtract_min else 0
+        _kwargs = dict(bound=(_bound_low, _bound_high), subtract_min=False)
         if _IMINUIT_1:
             _kwargs["bins"] = size
         else:
@@ -327,7 +330,7 @@ class MinimizerIMinuit(MinimizerBase):
         _bins, _vals, _statuses = self.__iminuit.mnprofile(parameter_name, **_kwargs)
         # TODO: check statuses (?)
         self.minimize()  # return to minimum
-        return np.array([_bins, _vals]), _arrow_specs
+        return np.array([_bins, np.asarray(_vals) - _y_offset]), _arrow_specs
 
     def set(self, parameter_name, parameter_value):
         if parameter_name not in self._minimizer_param_dict:
